@@ -48,4 +48,10 @@ let do_core (txt : string) : string =
 let () =
   register "c04premises" do_premises;
   register "c04core" do_core;
+  (* c04drop: the premises of C04_prints_admitted_drop — parses, accepted, closed, no split and one provider
+     name per process (drop allowed) *)
+  register "c04drop" (fun txt -> if c04_drop_text (explode txt) then "DROP-OK" else "DROP-NO");
+  (* c04all: the premises of C04_prints_admitted_all — parses, accepted, closed, one provider name per
+     declaration (drop and split allowed) *)
+  register "c04all" (fun txt -> if c04_all_text (explode txt) then "ALL-OK" else "ALL-NO");
   List.iter (fun seed -> register (Printf.sprintf "saxcheck-%d" seed) (do_check seed)) [0; 1; 2; 3]
